@@ -185,6 +185,21 @@ pub fn parts(id: &'static str, tier: Tier) -> Vec<Part<Case>> {
         }
         "C02" | "C03" => {
             parts.push(exhaustive_core("exhaustive-core", tier.pick(4, 5), &ADV01, false));
+            if id == "C02" {
+                // the same alphabet with 1, 2 and 24 published levels (the level arrays are the views under test)
+                for lv in [1usize, 2, 24] {
+                    let depth = tier.pick(3usize, 4usize);
+                    let total = core_space(depth, 2);
+                    parts.push(Part {
+                        name: format!("exhaustive-core-levels-{}", lv),
+                        kind: PartKind::Exhaustive {
+                            total,
+                            decode: Box::new(move |i| Some(Case::Book(case_of(core_sequence(i, depth, &ADV01, TICK, MID), false, true, lv)))),
+                            description: format!("every sequence of exactly {} steps over the C01 alphabet with clock advance 0 or 1, LEVELS = {}", depth, lv),
+                        },
+                    });
+                }
+            }
             let mut c = GenCfg::base(len);
             c.w_modify = 14;
             c.w_trading = if id == "C02" { 2 } else { 3 };
@@ -361,6 +376,42 @@ pub fn parts(id: &'static str, tier: Tier) -> Vec<Part<Case>> {
             parts.push(random_part("random-wide-reload", c, tier.pick(30_000, 600_000)));
         }
         "C12" => {
+            // every off-grid request after every depth-<=2 core: creations (create / create-and-place, both sides,
+            // prices one below / one above each grid price) and modifications of every id to an off-grid price
+            for d in [1usize, 2] {
+                let prices = grid_prices();
+                parts.push(exhaustive_tail(
+                    &format!("exhaustive-offgrid-d{}", d),
+                    d,
+                    (2 * 2 * 6 + d as u64 * 6 * 2) * 17,
+                    move |t, ops, _| {
+                        let cont = t % 17;
+                        let t = t / 17;
+                        let n_create = 2 * 2 * 6u64;
+                        let off = |k: u64| -> u32 { let p = prices[(k / 2) as usize % 3]; if k % 2 == 0 { p - 1 } else { p + 1 } };
+                        if t < n_create {
+                            let bid = t % 2 == 0;
+                            let placing = (t / 2) % 2 == 0;
+                            let price = Some(off(t / 4));
+                            ops.push(if placing { Op::CreatePlace { bid, vol: 1, trader: 3, price } } else { Op::Create { bid, vol: 1, trader: 3, price } });
+                        } else {
+                            let t = t - n_create;
+                            let idn = (t / 12) as usize;
+                            let ev = (t / 6) % 2 == 1;
+                            let price = Some(off(t % 6));
+                            let r = exact_ref(idn);
+                            ops.push(if ev { Op::EvModify { r, price, vol: None } } else { Op::Modify { r, price, vol: Some(2) } });
+                        }
+                        if cont < 16 {
+                            ops.push(Op::Advance(1));
+                            ops.push(core_op(cont as usize, TICK, MID));
+                        }
+                        true
+                    },
+                    format!("every tie-free core sequence of depth {} x (off-grid creation: create / create-and-place x side x 6 off-grid prices; or off-grid modification of each id, direct and as event, 6 off-grid prices) x (no continuation or one of the 16 core ops), tick 2", d),
+                    false,
+                ));
+            }
             let mut c = GenCfg::base(len);
             c.offgrid = true;
             c.w_modify = 20;
